@@ -21,6 +21,10 @@ pub struct MtArgs {
     pub ops: u64,
     pub workers: usize,
     pub snapshots: bool,
+    pub single_writer: bool,
+    /// plain scans instead of snapshots, no rotation / flush / clear (no version upgrades): the
+    /// single-scan clause of C06 checked exactly
+    pub scans: bool,
 }
 
 fn items_json(items: &[(u64, u64, u64)]) -> String {
@@ -60,7 +64,7 @@ pub fn run_mt(args: &MtArgs) -> Outcome {
         };
         let mk = |name: &str| {
             db.keyspace(name, || {
-                let mut o = KeyspaceCreateOptions::default().max_memtable_size(2_000);
+                let mut o = KeyspaceCreateOptions::default().max_memtable_size(if args.scans { 256 * 1024 * 1024 } else { 2_000 });
                 if variant.kv_sep {
                     o = o.with_kv_separation(Some(fjall::KvSeparationOptions::default().separation_threshold(100)));
                 }
@@ -80,6 +84,7 @@ pub fn run_mt(args: &MtArgs) -> Outcome {
             let seed = args.seed ^ (run << 10) ^ (t * 7919);
             let n = args.ops;
             let snaps = args.snapshots;
+            let scans = args.scans;
             handles.push(std::thread::spawn(move || {
                 fjall::verif::set_thread_tag(t + 1);
                 let mut rng = rand::rngs::StdRng::seed_from_u64(seed);
@@ -125,10 +130,33 @@ pub fn run_mt(args: &MtArgs) -> Outcome {
                             let r = b.commit();
                             emit("RetW", &[("ok", F::B(r.is_ok()))]);
                         }
-                        60..=61 => {
+                        60..=61 if !scans => {
                             emit("CallW", &[("items", F::Raw(items_json(&[(ks as u64 + 1, 0, 0)])))]);
                             let r = kss[ks].clear();
                             emit("RetW", &[("ok", F::B(r.is_ok()))]);
+                        }
+                        60..=61 => {}
+                        62..=84 if scans => {
+                            // one plain scan of a keyspace (no snapshot object): every model key's value
+                            emit("SCall", &[]);
+                            let it = match rng.gen_range(0..4) {
+                                0 => kss[ks].iter(),
+                                1 => kss[ks].range::<Vec<u8>, _>(..),
+                                2 => kss[ks].prefix(b""),
+                                _ => kss[ks].range::<Vec<u8>, _>(conc.key(1)..),
+                            };
+                            let mut seen = vec![0u64; nkeys as usize];
+                            let rev = rng.gen_bool(0.3);
+                            let items: Vec<_> = if rev { it.rev().collect() } else { it.collect() };
+                            for g in items {
+                                if let Ok((kb, v)) = g.into_inner() {
+                                    if let Some(kk) = (1..=nkeys).find(|x| conc.key(*x)[..] == kb[..]) {
+                                        seen[kk as usize - 1] = unval(&v);
+                                    }
+                                }
+                            }
+                            let cells: Vec<(u64, u64, u64)> = (1..=nkeys).map(|kk| (ks as u64 + 1, kk, seen[kk as usize - 1])).collect();
+                            emit("ScanRet", &[("cells", F::Raw(items_json(&cells)))]);
                         }
                         62..=84 => {
                             emit("CallR", &[("c", F::Raw(format!("[{},{}]", ks + 1, k)))]);
@@ -313,11 +341,103 @@ pub fn forced_torn_batch(dir: &std::path::Path) -> Result<serde_json::Value, Str
     Ok(json!({"instant": inst, "batch_seqno": batch_seqno, "first_read": [s1, s2], "second_read": [l1, l2], "commit_ok": ok}))
 }
 
-/// Concurrent optimistic transactions: every thread runs read-modify-write transactions over a
-/// small set of cells (point reads, range scans, inserts, removes) with retry on Conflict; what
-/// each transaction read and wrote is logged before commit() for validation against Tx_Trace.
+/// A write transaction of either transactional database behind one set of calls.
+enum MtTx<'a> {
+    Opt(fjall::OptimisticWriteTx, &'a fjall::OptimisticTxKeyspace),
+    Single(fjall::SingleWriterWriteTx<'a>, &'a fjall::SingleWriterTxKeyspace),
+}
+
+impl MtTx<'_> {
+    fn ks(&self) -> &fjall::Keyspace {
+        match self {
+            MtTx::Opt(_, k) => k.inner(),
+            MtTx::Single(_, k) => k.inner(),
+        }
+    }
+    fn get(&self, key: Vec<u8>) -> u64 {
+        let r = match self {
+            MtTx::Opt(t, _) => t.get(self.ks(), key),
+            MtTx::Single(t, _) => t.get(self.ks(), key),
+        };
+        r.ok().flatten().map_or(0, |b| unval(&b))
+    }
+    fn size_of(&self, key: Vec<u8>) -> Option<u32> {
+        match self {
+            MtTx::Opt(t, _) => t.size_of(self.ks(), key),
+            MtTx::Single(t, _) => t.size_of(self.ks(), key),
+        }
+        .ok()
+        .flatten()
+    }
+    fn iter(&self) -> fjall::Iter {
+        match self {
+            MtTx::Opt(t, _) => t.iter(self.ks()),
+            MtTx::Single(t, _) => t.iter(self.ks()),
+        }
+    }
+    fn range_to(&self, hi: Vec<u8>) -> fjall::Iter {
+        match self {
+            MtTx::Opt(t, _) => t.range::<Vec<u8>, _>(self.ks(), ..=hi),
+            MtTx::Single(t, _) => t.range::<Vec<u8>, _>(self.ks(), ..=hi),
+        }
+    }
+    fn insert(&mut self, key: Vec<u8>, v: Vec<u8>) {
+        match self {
+            MtTx::Opt(t, k) => t.insert(k.inner(), key, v),
+            MtTx::Single(t, k) => t.insert(k, key, v),
+        }
+    }
+    fn remove(&mut self, key: Vec<u8>) {
+        match self {
+            MtTx::Opt(t, k) => t.remove(k.inner(), key),
+            MtTx::Single(t, k) => t.remove(k, key),
+        }
+    }
+    fn fetch_update(&mut self, key: Vec<u8>, nv: Vec<u8>) -> u64 {
+        let r = match self {
+            MtTx::Opt(t, k) => t.fetch_update(k.inner(), key, |_| Some(nv.clone().into())),
+            MtTx::Single(t, k) => t.fetch_update(k, key, |_| Some(nv.clone().into())),
+        };
+        r.ok().flatten().map_or(0, |b| unval(&b))
+    }
+    fn commit(self) -> bool {
+        match self {
+            MtTx::Opt(t, _) => matches!(t.commit(), Ok(Ok(()))),
+            MtTx::Single(t, _) => t.commit().is_ok(),
+        }
+    }
+}
+
+/// The two transactional databases behind one handle (cloned into the threads).
+#[derive(Clone)]
+enum MtTxDb {
+    Opt(fjall::OptimisticTxDatabase, fjall::OptimisticTxKeyspace),
+    Single(fjall::SingleWriterTxDatabase, fjall::SingleWriterTxKeyspace),
+}
+
+impl MtTxDb {
+    fn begin(&self) -> Option<MtTx<'_>> {
+        match self {
+            MtTxDb::Opt(db, ks) => db.write_tx().ok().map(|t| MtTx::Opt(t, ks)),
+            MtTxDb::Single(db, ks) => Some(MtTx::Single(db.write_tx(), ks)),
+        }
+    }
+    fn ks(&self) -> &fjall::Keyspace {
+        match self {
+            MtTxDb::Opt(_, k) => k.inner(),
+            MtTxDb::Single(_, k) => k.inner(),
+        }
+    }
+}
+
+/// Concurrent transactions: every thread runs read-modify-write transactions over a small set
+/// of cells (point reads, range scans, inserts, removes); what each transaction read and wrote
+/// is logged before commit() for validation against Tx_Trace.  Optimistic database: retry on
+/// Conflict.  Single-writer database (`args.single_writer`): transactions queue on the writer
+/// mutex, every commit must succeed and must have read the state of its commit point (C08:
+/// write transactions never overlap, no update is lost).
 pub fn run_mt_tx(args: &MtArgs) -> Outcome {
-    use fjall::OptimisticTxDatabase;
+    use fjall::{OptimisticTxDatabase, SingleWriterTxDatabase};
     let mut out = Outcome::default();
     let root = crate::util::scratch_root();
     let mut rng = rand::rngs::StdRng::seed_from_u64(args.seed);
@@ -327,18 +447,30 @@ pub fn run_mt_tx(args: &MtArgs) -> Outcome {
     for run in 0..args.runs {
         let dir = fresh_dir(&root, &format!("mtx{run}"));
         let conc = Concretizer::new(1, 0, 0);
-        let db = match OptimisticTxDatabase::builder(&dir).worker_threads(args.workers.max(1)).open() {
-            Ok(d) => d,
-            Err(_) => continue,
+        let opts = || KeyspaceCreateOptions::default().max_memtable_size(3_000);
+        let db = if args.single_writer {
+            match SingleWriterTxDatabase::builder(&dir).worker_threads(args.workers.max(1)).open() {
+                Ok(d) => {
+                    let ks = d.keyspace("a", opts).unwrap();
+                    MtTxDb::Single(d, ks)
+                }
+                Err(_) => continue,
+            }
+        } else {
+            match OptimisticTxDatabase::builder(&dir).worker_threads(args.workers.max(1)).open() {
+                Ok(d) => {
+                    let ks = d.keyspace("a", opts).unwrap();
+                    MtTxDb::Opt(d, ks)
+                }
+                Err(_) => continue,
+            }
         };
-        let ks = db.keyspace("a", || KeyspaceCreateOptions::default().max_memtable_size(3_000)).unwrap();
         let _ = rng.gen_range(0..2);
         fjall::verif::trace_start();
         emit("Reset", &[]);
         let mut handles = vec![];
         for t in 0..args.threads {
             let db = db.clone();
-            let ks = ks.clone();
             let conc = conc.clone();
             let seed = args.seed ^ (run << 10) ^ (t * 104729);
             let n = args.ops;
@@ -349,9 +481,9 @@ pub fn run_mt_tx(args: &MtArgs) -> Outcome {
                 let mut commits = 0u64;
                 let mut conflicts = 0u64;
                 for _ in 0..n {
-                    let mut tx = match db.write_tx() {
-                        Ok(t) => t,
-                        Err(_) => break,
+                    let mut tx = match db.begin() {
+                        Some(t) => t,
+                        None => break,
                     };
                     let mut reads: Vec<(u64, u64, u64)> = vec![];
                     let mut writes: Vec<(u64, u64, u64)> = vec![];
@@ -360,16 +492,16 @@ pub fn run_mt_tx(args: &MtArgs) -> Outcome {
                     match rng.gen_range(0..4) {
                         0 => {
                             // point read + write another cell (write skew shape)
-                            let v = tx.get(ks.inner(), conc.key(k1)).ok().flatten().map_or(0, |b| unval(&b));
+                            let v = tx.get(conc.key(k1));
                             reads.push((1, k1, v));
                             vctr += 1;
-                            tx.insert(ks.inner(), conc.key(k2), val(vctr));
+                            tx.insert(conc.key(k2), val(vctr));
                             writes.push((1, k2, vctr));
                         }
                         1 => {
                             // scan of everything, then write
                             let mut seen = vec![0u64; nkeys as usize];
-                            for g in tx.iter(ks.inner()) {
+                            for g in tx.iter() {
                                 if let Ok((kb, v)) = g.into_inner() {
                                     if let Some(k) = (1..=nkeys).find(|x| conc.key(*x)[..] == kb[..]) {
                                         seen[k as usize - 1] = unval(&v);
@@ -380,7 +512,7 @@ pub fn run_mt_tx(args: &MtArgs) -> Outcome {
                                 reads.push((1, k, seen[k as usize - 1]));
                             }
                             vctr += 1;
-                            tx.insert(ks.inner(), conc.key(k1), val(vctr));
+                            tx.insert(conc.key(k1), val(vctr));
                             writes.push((1, k1, vctr));
                         }
                         2 => {
@@ -388,16 +520,16 @@ pub fn run_mt_tx(args: &MtArgs) -> Outcome {
                             if rng.gen_range(0..2) == 0 {
                                 vctr += 1;
                                 let nv = val(vctr);
-                                let prev = tx.fetch_update(ks.inner(), conc.key(k1), |_| Some(nv.clone().into())).ok().flatten().map_or(0, |b| unval(&b));
+                                let prev = tx.fetch_update(conc.key(k1), nv);
                                 reads.push((1, k1, prev));
                                 writes.push((1, k1, vctr));
                             } else {
-                                let sz = tx.size_of(ks.inner(), conc.key(k1)).ok().flatten();
+                                let sz = tx.size_of(conc.key(k1));
                                 // the size identifies the value class only; log presence through get as well
-                                let v = tx.get(ks.inner(), conc.key(k1)).ok().flatten().map_or(0, |b| unval(&b));
+                                let v = tx.get(conc.key(k1));
                                 let _ = sz;
                                 reads.push((1, k1, v));
-                                tx.remove(ks.inner(), conc.key(k2));
+                                tx.remove(conc.key(k2));
                                 writes.push((1, k2, 0));
                             }
                         }
@@ -405,7 +537,7 @@ pub fn run_mt_tx(args: &MtArgs) -> Outcome {
                             // range read of keys <= k1, write k2
                             let hi = conc.key(k1);
                             let mut seen = vec![0u64; nkeys as usize];
-                            for g in tx.range::<Vec<u8>, _>(ks.inner(), ..=hi) {
+                            for g in tx.range_to(hi) {
                                 if let Ok((kb, v)) = g.into_inner() {
                                     if let Some(k) = (1..=nkeys).find(|x| conc.key(*x)[..] == kb[..]) {
                                         seen[k as usize - 1] = unval(&v);
@@ -416,12 +548,12 @@ pub fn run_mt_tx(args: &MtArgs) -> Outcome {
                                 reads.push((1, k, seen[k as usize - 1]));
                             }
                             vctr += 1;
-                            tx.insert(ks.inner(), conc.key(k2), val(vctr));
+                            tx.insert(conc.key(k2), val(vctr));
                             writes.push((1, k2, vctr));
                         }
                     }
                     emit("TxIntent", &[("reads", F::Raw(items_json(&reads))), ("writes", F::Raw(items_json(&writes)))]);
-                    let ok = matches!(tx.commit(), Ok(Ok(())));
+                    let ok = tx.commit();
                     emit("TxResult", &[("ok", F::B(ok))]);
                     if ok { commits += 1 } else { conflicts += 1 }
                 }
@@ -437,7 +569,7 @@ pub fn run_mt_tx(args: &MtArgs) -> Outcome {
             }
         }
         for k in 1..=nkeys {
-            let g = ks.get(conc.key(k)).ok().flatten().map_or(0, |b| unval(&b));
+            let g = db.ks().get(conc.key(k)).ok().flatten().map_or(0, |b| unval(&b));
             emit("Final", &[("c", F::Raw(format!("[1,{k}]"))), ("val", F::U(g))]);
         }
         fjall::verif::trace_stop();
@@ -450,7 +582,9 @@ pub fn run_mt_tx(args: &MtArgs) -> Outcome {
                 "excerpt": ev.iter().filter(|e| e.contains("TxIntent")).take(3).cloned().collect::<Vec<_>>()}));
         }
         all.extend(ev);
-        drop(ks);
+        if args.single_writer && conflicts > 0 {
+            out.violations.push(json!({"first": format!("single-writer database: {conflicts} commits failed"), "replay": trace_path.to_string_lossy()}));
+        }
         drop(db);
         let _ = std::fs::remove_dir_all(&dir);
     }
@@ -470,8 +604,8 @@ pub fn run_flood(out_dir: &std::path::Path, seed: u64, rounds: u64, secs: u64) -
     let root = crate::util::scratch_root();
     for round in 0..rounds {
         let dir = fresh_dir(&root, &format!("flood{round}"));
-        let workers = if round % 3 == 2 { 1 } else { 2 };
-        let writers = if round % 2 == 0 { 4 } else { 2 };
+        let workers = std::env::var("FLOOD_WORKERS").ok().and_then(|x| x.parse().ok()).unwrap_or(if round % 3 == 2 { 1 } else { 2 });
+        let writers = std::env::var("FLOOD_WRITERS").ok().and_then(|x| x.parse().ok()).unwrap_or(if round % 2 == 0 { 4 } else { 2 });
         let db = match Database::builder(&dir).worker_threads(workers).open() {
             Ok(d) => d,
             Err(e) => {
@@ -580,4 +714,202 @@ pub fn run_flood(out_dir: &std::path::Path, seed: u64, rounds: u64, secs: u64) -
     }
     let _ = std::fs::remove_dir_all(&root);
     out
+}
+
+
+/// C14, write stall with SEVERAL keyspaces: phase 1 floods the worker queue (many writers, tiny
+/// memtables, 4 keyspaces), phase 2 writes to a keyspace that was idle during the flood.  Flush
+/// announcements that got lost in phase 1 leave flush tasks of other keyspaces at the head of the
+/// flush queue; the writers of phase 2 then reach 4 sealed memtables and must still proceed.
+pub fn run_flood_multi(out_dir: &std::path::Path, seed: u64, rounds: u64, secs: u64) -> Outcome {
+    use std::sync::atomic::{AtomicBool, AtomicU64, Ordering};
+    let mut out = Outcome::default();
+    let root = crate::util::scratch_root();
+    for round in 0..rounds {
+        let dir = fresh_dir(&root, &format!("floodm{round}"));
+        let workers = if round % 2 == 0 { 4 } else { 2 };
+        let db = match Database::builder(&dir).worker_threads(workers).open() {
+            Ok(d) => d,
+            Err(e) => {
+                out.notes.push(format!("open failed: {e:?}"));
+                continue;
+            }
+        };
+        let mk = |n: &str| db.keyspace(n, || KeyspaceCreateOptions::default().max_memtable_size(8_000)).unwrap();
+        let busy: Vec<fjall::Keyspace> = ["a", "b", "c", "d"].iter().map(|n| mk(n)).collect();
+        let idle = mk("idle");
+        let mut stuck: Option<String> = None;
+        let mut total = 0u64;
+        for (phase, (kss, writers, dur)) in [(busy.clone(), 12usize, secs), (vec![idle.clone()], 2usize, 3u64)].into_iter().enumerate() {
+            let stop = Arc::new(AtomicBool::new(false));
+            let progress = Arc::new(AtomicU64::new(0));
+            let mut handles = vec![];
+            for t in 0..writers {
+                let ks = kss[t % kss.len()].clone();
+                let stop = stop.clone();
+                let progress = progress.clone();
+                handles.push(std::thread::spawn(move || {
+                    let mut n: u64 = 0;
+                    while !stop.load(Ordering::Relaxed) {
+                        n += 1;
+                        let key = format!("key-{t}-{}", n % 64);
+                        if ks.insert(key.as_bytes(), format!("{:08}-{}-{}", n, seed, "x".repeat(64)).as_bytes()).is_err() {
+                            break;
+                        }
+                        progress.fetch_add(1, Ordering::Relaxed);
+                    }
+                }));
+            }
+            let start = std::time::Instant::now();
+            let mut last = 0u64;
+            let mut last_change = std::time::Instant::now();
+            while start.elapsed().as_secs() < dur {
+                std::thread::sleep(std::time::Duration::from_millis(100));
+                let p = progress.load(Ordering::Relaxed);
+                if p != last {
+                    last = p;
+                    last_change = std::time::Instant::now();
+                } else if last_change.elapsed().as_secs() >= 6 {
+                    stuck = Some(format!("phase {} ({} writers on {} keyspace(s), {workers} workers, memtable 8000 bytes): no write returned for 6 s after {} writes; sealed memtables per keyspace: {:?} / idle {}",
+                        phase + 1, writers, kss.len(), p, busy.iter().map(|k| k.sealed_memtable_count()).collect::<Vec<_>>(), idle.sealed_memtable_count()));
+                    break;
+                }
+            }
+            stop.store(true, Ordering::Relaxed);
+            total += progress.load(Ordering::Relaxed);
+            if stuck.is_some() {
+                break;
+            }
+            // the writers come back
+            let (tx, rx) = std::sync::mpsc::channel();
+            let n = handles.len();
+            for h in handles {
+                let tx = tx.clone();
+                std::thread::spawn(move || {
+                    let _ = h.join();
+                    let _ = tx.send(());
+                });
+            }
+            for _ in 0..n {
+                if rx.recv_timeout(std::time::Duration::from_secs(15)).is_err() {
+                    stuck = Some(format!("phase {}: a writer did not return within 15 s after the stop signal; sealed memtables per keyspace: {:?} / idle {}",
+                        phase + 1, busy.iter().map(|k| k.sealed_memtable_count()).collect::<Vec<_>>(), idle.sealed_memtable_count()));
+                    break;
+                }
+            }
+            if stuck.is_some() {
+                break;
+            }
+        }
+        out.behaviours += 1;
+        out.steps += total;
+        out.distinct.insert(hash_str(&format!("floodm{round}")));
+        if let Some(why) = stuck {
+            let rp = out_dir.join("flood_multi.json");
+            let _ = std::fs::write(&rp, serde_json::to_string_pretty(&json!({"kind": "flood-multi", "round": round, "workers": workers, "why": why})).unwrap());
+            out.violations.push(json!({"replay": rp.to_string_lossy(), "step": round, "first": format!("flood (several keyspaces) round {round}: {why}")}));
+            std::mem::forget(busy);
+            std::mem::forget(idle);
+            std::mem::forget(db);
+            return out;
+        }
+        drop(busy);
+        drop(idle);
+        let (tx, rx) = std::sync::mpsc::channel();
+        std::thread::spawn(move || {
+            drop(db);
+            let _ = tx.send(());
+        });
+        if rx.recv_timeout(std::time::Duration::from_secs(30)).is_err() {
+            out.violations.push(json!({"replay": out_dir.join("flood_multi.json").to_string_lossy(), "step": round, "first": "dropping the database after the flood did not return within 30 s"}));
+            return out;
+        }
+        let _ = std::fs::remove_dir_all(&dir);
+    }
+    let _ = std::fs::remove_dir_all(&root);
+    out
+}
+
+
+/// Forced schedule for the write stall (TLC counterexample of `NoStalledForEver` in WorkerQueue2):
+/// every worker is parked right after it sealed a memtable of keyspace "k" and before it
+/// announces the flush task; meanwhile writers of another keyspace fill the worker queue with
+/// rotation requests.  Released, every worker blocks in `send(Flush)` into the full queue; "k"
+/// has 4 sealed memtables, so its writers sit in `local_backpressure` - for how long?
+pub fn forced_stall(dir: &std::path::Path, workers: usize, wait_secs: u64) -> Result<serde_json::Value, String> {
+    use std::sync::atomic::{AtomicBool, AtomicU64, Ordering};
+    let e = |x: fjall::Error| format!("{x:?}");
+    let db = Database::builder(dir).worker_threads(workers).open().map_err(e)?;
+    let k = db.keyspace("k", || KeyspaceCreateOptions::default().max_memtable_size(1_000)).map_err(e)?;
+    let j = db.keyspace("j", || KeyspaceCreateOptions::default().max_memtable_size(1_000)).map_err(e)?;
+    fjall::verif::disarm_all();
+    let big = vec![b'x'; 2_000];
+    let mut parked = 0u64;
+    // one rotation per worker: each seals a memtable of k and parks before send(Flush)
+    for i in 0..4u64 {
+        if (i as usize) < workers {
+            fjall::verif::arm("RotSendFlush", 0, 0);
+        }
+        k.insert(format!("key{i}"), &big).map_err(e)?;
+        let t0 = std::time::Instant::now();
+        while (k.sealed_memtable_count() as u64) < i + 1 {
+            if t0.elapsed().as_secs() > 10 {
+                fjall::verif::disarm_all();
+                return Err(format!("rotation {i} did not happen (sealed = {})", k.sealed_memtable_count()));
+            }
+            std::thread::sleep(std::time::Duration::from_millis(5));
+        }
+        if (i as usize) < workers {
+            if fjall::verif::wait_parked("RotSendFlush", 10_000).is_none() {
+                fjall::verif::disarm_all();
+                return Err("worker did not reach the pause site".into());
+            }
+            parked += 1;
+        }
+    }
+    if k.sealed_memtable_count() < 4 {
+        fjall::verif::disarm_all();
+        return Err(format!("only {} sealed memtables", k.sealed_memtable_count()));
+    }
+    // a writer of k: its insert is applied, then it waits in local_backpressure
+    let done = Arc::new(AtomicBool::new(false));
+    let (k2, done2, big2) = (k.clone(), done.clone(), big.clone());
+    let hk = std::thread::spawn(move || {
+        let r = k2.insert("late", &big2).is_ok();
+        done2.store(true, Ordering::SeqCst);
+        r
+    });
+    // writers of j fill the worker queue with rotation requests (nobody receives: every worker is parked)
+    let mut j_writes = 0u64;
+    for n in 0..1_100u64 {
+        j.insert(format!("j{n}"), &big).map_err(e)?;
+        j_writes += 1;
+    }
+    // the workers go on: blocking send(Flush) into the full queue
+    for _ in 0..parked {
+        fjall::verif::release("RotSendFlush", 0);
+    }
+    let progress = Arc::new(AtomicU64::new(0));
+    let t0 = std::time::Instant::now();
+    while t0.elapsed().as_secs() < wait_secs && !done.load(Ordering::SeqCst) {
+        // the database is alive: writes to j are acknowledged all the time
+        j.insert(format!("alive{}", progress.fetch_add(1, Ordering::Relaxed)), b"v").map_err(e)?;
+        std::thread::sleep(std::time::Duration::from_millis(20));
+    }
+    let stalled = !done.load(Ordering::SeqCst);
+    let out = json!({"workers": workers, "workers_parked_then_released": parked, "writes_to_j_while_parked": j_writes,
+        "sealed_memtables_of_k": k.sealed_memtable_count(), "tables_of_k": k.table_count(),
+        "writer_of_k_returned_within_secs": if stalled { serde_json::Value::Null } else { json!(t0.elapsed().as_secs_f64()) },
+        "waited_secs": wait_secs, "writes_to_j_acknowledged_meanwhile": progress.load(Ordering::Relaxed), "stalled": stalled});
+    fjall::verif::disarm_all();
+    if stalled {
+        // leak everything: the writer thread never comes back
+        std::mem::forget(hk);
+        std::mem::forget(k);
+        std::mem::forget(j);
+        std::mem::forget(db);
+    } else {
+        let _ = hk.join();
+    }
+    Ok(out)
 }
